@@ -987,7 +987,7 @@ def mon_push(ops, lines):
 def mon_racing_namespace(ops, lines):
     """C10 under racing clients, read off the answers: once a create (OK or ALREADY_EXISTS) or a delete (OK) has
     returned, the same client's next request observes it; of several racing creates of one absent name exactly one
-    succeeds; of racing deletes of one present name at least one succeeds and the rest answer OK or NOT_FOUND."""
+    succeeds; of racing deletes of one present name exactly one succeeds and the rest answer NOT_FOUND."""
     creates, deletes = {}, {}
     for i, (o, r) in enumerate(zip(ops, lines)):
         if r.startswith("!"):
@@ -1023,6 +1023,9 @@ def mon_racing_namespace(ops, lines):
     for (k, name), codes in deletes.items():
         if codes.count("0") < 1:
             return "C10-delete-lost: none of %d racing %s of %r succeeded" % (len(codes), k, unhx(name))
+        if codes.count("0") > 1:
+            return ("C10-delete-not-atomic: %d of %d racing %s of %r answered OK - only one caller can have deleted it, "
+                    "the others find it absent (NOT_FOUND)" % (codes.count("0"), len(codes), k, unhx(name)))
     return None
 
 
